@@ -268,7 +268,7 @@ theorem LInv.execStep {s : Sys} (h : LInv s) (i : Wid) (fuel : Nat) (ordQ : List
       exact hx0 p y hy hr hne
     · rename_i x hx
       split
-      · exact h.setWk (hx0.finish x ordQ)
+      · exact (h.setWk (i := i) (hx0.finish x ordQ)).of_wk (noteExit_wk _ _ _ _)
       · generalize slice s.prog s.now cur fuel x = r
         obtain ⟨x', out⟩ := r
         dsimp only
@@ -307,8 +307,8 @@ theorem LInv.execStep {s : Sys} (h : LInv s) (i : Wid) (fuel : Nat) (ordQ : List
           · exact Or.inl h1
           · exact Or.inr (Or.inl h1)
           · exact Or.inr (Or.inr (mem_sinsert.mpr (Or.inl h1)))
-        | failed => exact h.setWk (hx1.finish x' ordQ)
-        | done => exact h.setWk (hx1.finish x' ordQ)
+        | failed => exact (h.setWk (i := i) (hx1.finish x' ordQ)).of_wk (noteExit_wk _ _ _ _)
+        | done => exact (h.setWk (i := i) (hx1.finish x' ordQ)).of_wk (noteExit_wk _ _ _ _)
 
 theorem LInv.micro {s : Sys} (h : LInv s) (m : Micro) : LInv (microStep Rules.current s m) := by
   cases m with
